@@ -328,14 +328,8 @@ func c18Sequential(c *core.Ctx) {
 	c.Section("retained-results", c.N(60000, 3000000), func(cs *core.Case) {
 		r := cs.R
 		k := gen.Kind(cs.Idx % uint64(gen.NumKinds))
-		if k == gen.TWCC {
-			// TransportLayerCC.Unmarshal into a used variable re-reads every *RecvDelta it already
-			// holds (they are pointers shared with the caller's copy): the unchanged library does not
-			// offer this guarantee for that type, so it is not demanded
-			return
-		}
 		enc := func() []byte {
-			v := gen.Packet(r, k, gen.Opts{Small: true, NoBig: true})
+			v := gen.Packet(r, k, gen.Opts{Small: true, NoBig: true, AllowKF: r.Chance(1, 3)})
 			if e, err := ref.Encode(v, ref.Lib); err == nil {
 				return e.B
 			}
@@ -370,6 +364,17 @@ func c18Sequential(c *core.Ctx) {
 		}
 		cs.Check(mon.SemEqual(kept.Interface(), snap), "history/retained-packet-changed/"+k.String(), det)
 		cs.Check(mon.SemEqual(dest, destSnap), "history/retained-destination-ssrc-changed/"+k.String(), det)
+		// and what the second decode produced does not depend on what the variable held before
+		if err2 == nil {
+			fresh := gen.New(k)
+			var ferr error
+			if pan, _, _ := core.Guard(func() { ferr = fresh.Unmarshal(cloneBytes(b)) }); !pan && ferr == nil {
+				cs.Eval(1)
+				cs.Check(mon.SemEqual(v, fresh), "history/decode-depends-on-receiver/"+k.String(), func() core.W {
+					return core.W{"type": k.String(), "receiver_held_decode_of_hex": mon.Hex(a, 200), "datagram_hex": mon.Hex(b, 200), "into_used_receiver": vdump(v), "into_fresh_receiver": vdump(fresh)}
+				})
+			}
+		}
 	})
 	c.Section("histories", c.N(40000, 2000000), func(cs *core.Case) {
 		r := cs.R
@@ -890,6 +895,7 @@ func c18FreshSection(c *core.Ctx, n uint64) {
 func runC18(c *core.Ctx) {
 	c18Sequential(c)
 	c18FreshSection(c, c.N(2400, 60000))
+	coldSection(c, c.N(48, 1600), nil)
 	// the same concurrent workload without the race detector: results only, more volume
 	reps := c.N(1, 12)
 	c.Section("concurrent-plain", uint64(len(c18Configs))*reps, func(cs *core.Case) {
@@ -901,6 +907,7 @@ func runC18(c *core.Ctx) {
 }
 
 func runC18Race(c *core.Ctx) {
+	coldSection(c, c.N(48, 1600), nil)
 	reps := c.N(1, 3)
 	c.Section("concurrent-race", uint64(len(c18Configs))*reps, func(cs *core.Case) {
 		c.WatchdogOff(true)
